@@ -175,7 +175,6 @@ func init() {
 				panic(targetPanic{iface{fr.i.runtimeErrorString, "sync: negative WaitGroup counter"}})
 			}
 			fr.i.sched.release(fr, &w.vc)
-			fr.i.sched.point(fr, "WaitGroup.Done")
 			return nil
 		},
 		"(*sync.WaitGroup).Wait": func(fr *frame, a []value) value {
